@@ -4,7 +4,7 @@ from __future__ import annotations
 
 import ast
 
-from ..astutil import attr_chain, call_attr, calls_in, guard_facts, unparse, walk_local
+from ..astutil import attr_chain, call_attr, calls_in, conjuncts, guard_facts, unparse, walk_local
 from ..cfg import CFG
 from ..dataflow import params_of, reaching_defs, resolved_text
 from ..report import Finding, Report
@@ -125,27 +125,26 @@ def check_worklist(idx: Index, rep: Report) -> None:
             if not ok_src:
                 bad.append(("source", f"returned value `{rv}` is not obtained by self._stack.pop() (definition at line {cfg.nodes[nid].lineno})"))
             else:
-                # the popping node must loop while the popped value is _MISSING
-                node = cfg.nodes[nid]
-                tomb_ok = False
-                # any path from def node to the return must pass a test comparing rv with _MISSING
-                def is_tomb_test(n, rv=rv):
-                    if n.ast is None or n.kind not in ("test", "stmt"):
+                # on every path from the pop to the return, an edge must establish `rv is not _MISSING`
+                # (polarity-aware: the False edge of `rv is _MISSING`, the True edge of `rv is not _MISSING`)
+                def establishes_live(n: int, m: int, lab, rv=rv) -> bool:
+                    a = cfg.nodes[n].ast
+                    if a is None or lab not in ("T", "F") or not isinstance(a, ast.expr):
                         return False
-                    for x in ast.walk(n.ast):
-                        if isinstance(x, ast.Compare) and len(x.ops) == 1 and isinstance(x.ops[0], (ast.Is, ast.IsNot, ast.Eq, ast.NotEq)):
-                            names = {unparse(x.left), unparse(x.comparators[0])}
-                            l = x.left.target.id if isinstance(x.left, ast.NamedExpr) and isinstance(x.left.target, ast.Name) else unparse(x.left)
-                            if "_MISSING" in names and (l == rv or rv in names):
+                    for atom, truth in conjuncts(a, lab == "T"):
+                        if not (isinstance(atom, ast.Compare) and len(atom.ops) == 1 and isinstance(atom.ops[0], (ast.Is, ast.IsNot, ast.Eq, ast.NotEq))):
+                            continue
+                        sides = [atom.left, atom.comparators[0]]
+                        txt = [x.target.id if isinstance(x, ast.NamedExpr) and isinstance(x.target, ast.Name) else unparse(x) for x in sides]
+                        if "_MISSING" in txt and rv in txt:
+                            same = isinstance(atom.ops[0], (ast.Is, ast.Eq))
+                            if truth != same:
                                 return True
                     return False
-                if is_tomb_test(node):
-                    tomb_ok = True
-                else:
-                    p = cfg.path_avoiding(nid, nret, is_tomb_test, follow_exc=False)
-                    tomb_ok = p is None
-                if not tomb_ok:
-                    bad.append(("tombstone", "a popped entry can be returned without being tested against _MISSING"))
+                others = {d for d, _ in defs if d != nid}
+                p = cfg.path_avoiding(nid, nret, lambda n: n.id in others, follow_exc=False, edge_ok=lambda n, m, lab: not establishes_live(n, m, lab))
+                if p is not None:
+                    bad.append(("tombstone", "a popped entry can be returned without being known to differ from _MISSING: " + " -> ".join(cfg.describe(p))))
         # del self._map[rv] on every path from the pop to the return
         def is_del(n, rv=rv):
             return n.ast is not None and any(unparse(k) == rv for _, k in _dels(n.ast, "_map")) if n.kind == "stmt" else False
